@@ -102,9 +102,17 @@ def gen_history_plan(seed, rng, tier):
         else:
             steps.append({"op": rng.choice(BUILD), "x": rng.randrange(10**6)})
     steps.append({"op": rng.choice(MAINT)})
+    # a read error (failing disk, fd exhaustion, permission) inside one
+    # maintenance step: the step may fail, it may not lose anything
+    rfault = None
+    maint_idx = [i for i, s in enumerate(steps) if s["op"] in MAINT]
+    if rng.random() < 0.35:
+        rfault = {"step": rng.choice(maint_idx),
+                  "nth": rng.choice([0, 1, 2, 3, 5, 8, 13, 21, 34, 55, 89]),
+                  "kind": rng.choice(["EIO", "EIO", "EMFILE", "EACCES"])}
     return {"kind": "history", "seed": seed, "steps": steps,
             "alternate": rng.random() < 0.25,
-            "gran_ns": rng.choice([1, 10**9])}
+            "gran_ns": rng.choice([1, 10**9]), "rfault": rfault}
 
 
 def gen_readers_plan(seed, rng, tier):
@@ -116,13 +124,18 @@ def gen_readers_plan(seed, rng, tier):
         readers.append({"name": f"r{i}",
                         "ops": [rng.choice(["get_raw", "get_raw", "getitem",
                                             "contains", "iter", "subset",
-                                            "get_raw_all"])
+                                            "get_raw_all", "iter_lookup"])
                                 for _ in range(rng.randint(2, 6))],
                         "warm": rng.random() < 0.6})
     faults = []
     if rng.random() < 0.25:
-        faults.append({"actor": "maint", "nth": rng.randrange(0, 60),
-                       "kind": rng.choice(["EIO", "ENOSPC", "EPERM"])})
+        if rng.random() < 0.5:
+            faults.append({"actor": "maint", "nth": rng.randrange(0, 60),
+                           "kind": rng.choice(["EIO", "ENOSPC", "EPERM"])})
+        else:
+            faults.append({"actor": "maint", "nth": rng.randrange(0, 120),
+                           "kind": rng.choice(["EIO", "EMFILE", "EACCES"]),
+                           "on": "read"})
     return {"kind": "readers", "seed": seed, "sched": _sched(rng),
             "n_commits": rng.randint(2, 5),
             "layout": rng.choice(["loose", "mixed", "mixed", "two_packs",
@@ -322,37 +335,22 @@ def run_history(plan):
                 else:
                     # maintenance
                     before_files = _obj_files(rp)
-                    grace = "keep"  # nothing may disappear
-                    if op == "pack_loose":
-                        st.pack_loose_objects()
-                    elif op == "repack":
-                        st.repack()
-                    elif op == "gc_none":
-                        garbage_collect(r, grace_period=None)
-                        grace = None
-                    elif op == "gc_zero":
-                        garbage_collect(r, grace_period=0)
-                        grace = 0
-                    elif op == "gc_default":
-                        garbage_collect(r)
-                        grace = GRACE_DEFAULT
-                    elif op == "prune_unreach_default":
-                        prune_unreachable_objects(st, r.refs,
-                                                  grace_period=GRACE_DEFAULT)
-                        grace = GRACE_DEFAULT
-                    elif op == "prune_unreach_zero":
-                        prune_unreachable_objects(st, r.refs, grace_period=0)
-                        grace = 0
-                    elif op == "prune_tmp":
-                        st.prune(grace_period=0)
-                    elif op == "pack_refs":
-                        r.refs.pack_refs(all=True)
-                    elif op == "midx":
-                        st.write_midx()
-                    elif op == "commit_graph":
-                        st.write_commit_graph()
-                    else:
-                        raise ValueError(op)
+                    grace = {"gc_none": None, "gc_zero": 0,
+                             "gc_default": GRACE_DEFAULT,
+                             "prune_unreach_default": GRACE_DEFAULT,
+                             "prune_unreach_zero": 0}.get(op, "keep")
+                    rf = plan.get("rfault")
+                    if rf and rf["step"] == si:
+                        a.rcount = 0
+                        sim.rfaults = {("main", rf["nth"]): rf["kind"]}
+                    try:
+                        _maintain(op, r, st)
+                    except BaseException as e:  # noqa: BLE001
+                        if not is_injected(e):
+                            raise
+                        sim.stat("probe:maintenance_failed_on_read_error")
+                    finally:
+                        sim.rfaults = {}
                     if _obj_files(rp) != before_files:
                         sim.stat("probe:maintainer_removed_files")
                         a.local["changed"] = True
@@ -365,6 +363,33 @@ def run_history(plan):
                         fr.close()
                 applied.append(op)
             r.close()
+
+        def _maintain(op, r, st):
+            if op == "pack_loose":
+                st.pack_loose_objects()
+            elif op == "repack":
+                st.repack()
+            elif op == "gc_none":
+                garbage_collect(r, grace_period=None)
+            elif op == "gc_zero":
+                garbage_collect(r, grace_period=0)
+            elif op == "gc_default":
+                garbage_collect(r)
+            elif op == "prune_unreach_default":
+                prune_unreachable_objects(st, r.refs,
+                                          grace_period=GRACE_DEFAULT)
+            elif op == "prune_unreach_zero":
+                prune_unreachable_objects(st, r.refs, grace_period=0)
+            elif op == "prune_tmp":
+                st.prune(grace_period=0)
+            elif op == "pack_refs":
+                r.refs.pack_refs(all=True)
+            elif op == "midx":
+                st.write_midx()
+            elif op == "commit_graph":
+                st.write_commit_graph()
+            else:
+                raise ValueError(op)
 
         def check_after(op, si, grace, store, who, final=False):
             rc = reach()
@@ -503,9 +528,16 @@ def run_readers(plan):
         # garbage is old enough to be pruned by a default-grace gc
         sim.clock.advance(30 * DAY * 10**9)
         state = {"maint_running": False, "maint_done": False}
+        reach_set = set(reach)
 
         def maint(a):
-            r = Repo(rp)
+            try:
+                r = Repo(rp)
+            except BaseException as e:  # noqa: BLE001
+                if not is_injected(e):
+                    raise
+                state["maint_done"] = True
+                return  # the maintainer could not even open the repository
             state["maint_running"] = True
             try:
                 for op in plan["maint"]:
@@ -578,6 +610,25 @@ def run_readers(plan):
                                         "detail": f"{len(miss)} of "
                                         f"{len(reach)} reachable ids not "
                                         f"listed, e.g. {miss[0].decode()}"})
+                            elif op == "iter_lookup":
+                                # iterate and look each id up on the way, on
+                                # one handle (what write_commit_graph does)
+                                seen = set()
+                                for i in st:
+                                    seen.add(i)
+                                    if i in reach_set:
+                                        # (garbage may rightly be pruned
+                                        # between the listing and now)
+                                        oid = i
+                                        st.get_raw(i)
+                                miss = [i for i in reach if i not in seen]
+                                if miss:
+                                    viols.append({
+                                        "sig": "C10/iteration-missed-object/"
+                                               "iter_lookup",
+                                        "detail": f"{len(miss)} of "
+                                        f"{len(reach)} reachable ids not "
+                                        f"listed, e.g. {miss[0].decode()}"})
                             elif op == "subset":
                                 want = rr.sample(reach, min(len(reach), 5))
                                 got = {o.id for o in st.iterobjects_subset(want)}
@@ -598,10 +649,16 @@ def run_readers(plan):
                                 f"{oid.decode()} (maintenance running: "
                                 f"{during or state['maint_running']})"})
                         except PackFileDisappeared as e:
+                            if os.environ.get("VERIF_DEBUG_TB"):
+                                import traceback
+                                traceback.print_exc()
                             viols.append({
                                 "sig": f"C10/pack-disappeared-escaped/{op}",
                                 "detail": repr(e)[:300]})
                         except Exception as e:  # noqa: BLE001
+                            if os.environ.get("VERIF_DEBUG_TB"):
+                                import traceback
+                                traceback.print_exc()
                             viols.append({
                                 "sig": f"C10/reader-exception/{op}/"
                                 f"{type(e).__name__}",
